@@ -199,6 +199,7 @@ PROPS["C19"] = {
          "race_anchors": ["api_contact.go", "api_contactrequest.go", "api_app.go", "api_group.go", "api_multimember.go", "api_event.go",
                           "api_debug.go", "api_verified_credentials.go", "api_replication.go", "api_client.go", "service.go", "service_group.go"],
          "timeout": {"quick": 900, "thorough": 2400}},
+        {"name": "c19-deactivation-overlap", "pkg": ROOT, "run": "TestVerifC19Deactivation", "timeout": {"quick": 900, "thorough": 2400}},
         {"name": "c19-helpers", "pkg": ROOT, "run": "TestVerifC19Helpers", "timeout": {"quick": 600, "thorough": 1800}},
         {"name": "c19-rpc-sweep", "pkg": ROOT, "run": "TestVerifC19Sweep", "timeout": {"quick": 1500, "thorough": 3400}},
     ],
